@@ -216,6 +216,92 @@ theorem dur_of_int (n : Int) :
     durOfInt n = if -315576000000 ≤ n ∧ n ≤ 315576000000 then .ok (n * 1000000) else .error .valueError := by
   unfold durOfInt minSeconds maxSeconds; rfl
 
+/-! #### round 2: compositions between the numeric types, the uint side of `double`, sign of duration text -/
+
+/-- `int(double(i)) == i` for every integer a double holds exactly (|i| < 2^53): `float(int)` is
+correctly rounded, hence exact there, and `int(double)` truncates an integer to itself -/
+theorem int_double_roundtrip (i : Int) (h : i.natAbs < 2 ^ 53) : intOfDouble (.fin (doubleOfInt i)) = .ok i := by
+  have e : (doubleOfInt i).trunc = i := by
+    have := rnd_exact i 1 (by decide) h
+    simpa [doubleOfInt] using this
+  unfold intOfDouble pyTrunc
+  simp only [bind, Except.bind, e]
+  unfold int64
+  rw [if_pos]
+  have : (2:Int)^53 ≤ (2:Int)^63 := by decide
+  omega
+/-- `uint(double(u)) == u` for every non-negative integer below 2^53 -/
+theorem uint_double_roundtrip (u : Int) (h0 : 0 ≤ u) (h : u.natAbs < 2 ^ 53) : uintOfDouble (.fin (doubleOfInt u)) = .ok u := by
+  have e : (doubleOfInt u).trunc = u := by
+    have := rnd_exact u 1 (by decide) h
+    simpa [doubleOfInt] using this
+  unfold uintOfDouble pyTrunc
+  simp only [bind, Except.bind, e]
+  unfold uint64
+  rw [if_pos]
+  omega
+
+/-- `int(uint(i))`, for EVERY int64: `i` itself when non-negative, an error (raised by `uint`) otherwise -/
+theorem int_uint_roundtrip (i : Int) (h : i64 i) :
+    (uintOfInt i >>= intOfUint) = if 0 ≤ i then .ok i else .error .valueError := by
+  unfold i64 at h
+  unfold uintOfInt intOfUint uint64 int64
+  by_cases h0 : 0 ≤ i
+  · rw [if_pos (by omega), if_pos h0]; simp only [bind, Except.bind]; rw [if_pos (by omega)]
+  · rw [if_neg (by omega), if_neg h0]; rfl
+/-- `uint(int(u))`, for EVERY uint64: `u` itself when it fits int64, an error (raised by `int`) above -/
+theorem uint_int_roundtrip (u : Int) (h : u64 u) :
+    (intOfUint u >>= uintOfInt) = if u < (2:Int)^63 then .ok u else .error .valueError := by
+  unfold u64 at h
+  unfold uintOfInt intOfUint uint64 int64
+  by_cases h0 : u < (2:Int)^63
+  · rw [if_pos (by omega), if_pos h0]; simp only [bind, Except.bind]; rw [if_pos (by omega)]
+  · rw [if_neg (by omega), if_neg h0]; rfl
+
+/-- `uint(double)`: NaN and the infinities are errors; a value is always the exact truncation of a
+finite double and lies in the uint64 range — negative doubles ≤ −1 and doubles ≥ 2^64 never wrap -/
+theorem uint_of_nonfinite : uintOfDouble .nan = .error .valueError ∧ ∀ s, uintOfDouble (.inf s) = .error .overflow :=
+  ⟨rfl, fun _ => rfl⟩
+theorem uint_of_double_out_of_range (v : Dy) (h : ¬ u64 v.trunc) : uintOfDouble (.fin v) = .error .valueError := by
+  rw [uint_of_double_trunc, if_neg h]
+theorem uint_of_double_ok (d : Dbl) (r : Int) (h : uintOfDouble d = .ok r) : ∃ v, d = .fin v ∧ r = v.trunc ∧ u64 r := by
+  cases d with
+  | nan => cases h
+  | inf s => cases h
+  | fin v =>
+    refine ⟨v, rfl, ?_⟩
+    rw [uint_of_double_trunc] at h
+    split at h
+    · rename_i hr; injection h with h; subst h; exact ⟨rfl, hr⟩
+    · cases h
+
+/-- `bool(string(b)) == b` (`string(true)` is Python's `"True"`, which `bool()` accepts) -/
+theorem bool_string_roundtrip (b : Bool) : boolOfText (stringOfBool b) = .ok b := by
+  cases b <;> rfl
+
+/-- the sign of a duration text only negates the value: for ANY text `(digits [. digits] unit)+`,
+`duration("-" + text)` is the negated `duration(text)` and fails exactly when that fails — what a
+parse memo keyed by the sign-less text would break (seeded change C10-m6) -/
+theorem dur_text_sign (items : List Item) (hne : items ≠ []) (h : ∀ it ∈ items, it.wf) :
+    durOfText (45 :: renderItems items) = (durOfText (renderItems items)).map (fun v => -v) := by
+  have hm := C11.duration_denotes .minus items hne h
+  have hp := C11.duration_denotes .none items hne h
+  simp only [C11.Sgn.text, List.nil_append, List.cons_append] at hm hp
+  unfold durOfText
+  rw [hm, hp]
+  split <;> simp [C11.Sgn.val, Except.map]
+
+example : int_double_roundtrip 9007199254740991 (by decide) = int_double_roundtrip 9007199254740991 (by decide) := rfl
+example : intOfDouble (.fin (doubleOfInt (2^53 + 1))) = .ok (2^53) := by rfl     -- beyond 2^53 the round trip is lossy
+example : (uintOfInt (-1) >>= intOfUint) = .error .valueError := by rfl
+example : (intOfUint (2^63) >>= uintOfInt) = .error .valueError := by rfl
+/-- the hypotheses of `dur_text_sign` are satisfiable: `90s`, `1h30m` -/
+example : ∃ items : List Item, items ≠ [] ∧ (∀ it ∈ items, it.wf) ∧ renderItems items = [57, 48, 115] :=
+  ⟨[⟨[57, 48], none, .s⟩], by simp, by
+    intro it hm; simp at hm; subst hm
+    exact ⟨by intro c hc; simp at hc; rcases hc with rfl | rfl <;> decide, by simp, Or.inl (by simp)⟩,
+   by simp [renderItems, renderItem, fracText, unitText]⟩
+
 /-- every exception class these conversions raise for bad input is one `function_eval` turns into an
 evaluation error (and the compiled runner wraps everything) -/
 theorem error_classes_are_evaluation_errors : Exc.valueError ∈ functionEvalHandlers ∧ Exc.typeError ∈ functionEvalHandlers := by
